@@ -7,6 +7,8 @@ arrived, in seeded order / grouping / operand order, and probes identity,
 commutativity and associativity on the way.  Oracle: the exact reference model of
 the records each partial covers, and one tree filled with everything.
 """
+import numpy as np
+
 from .. import model, observe, spec as specmod
 from ..kernel import call
 from ..sched import Sched
@@ -18,7 +20,10 @@ def tol_for(records, n):
     for r in records:
         for f in ("x", "y"):
             v = r.get(f)
-            if isinstance(v, float) and v == v and abs(v) != float("inf"):
+            if isinstance(v, bool) or not isinstance(v, (int, float, np.integer, np.floating)):
+                continue
+            v = float(v)  # (integers count as well: a 64-bit identifier among the values sets the scale of the rounding)
+            if v == v and abs(v) != float("inf"):
                 scale = max(scale, abs(v))
     return observe.Tol(n=16 * max(1, n), scale=scale)
 
